@@ -270,7 +270,13 @@ CHECKS["C07"] = dict(
          "descriptors C14's. " + BASE_NOTE)
 
 NOT_YET = "check not built yet in this round (see DESIGN.md §9 build order); no claim is made"
-NOT_APPLICABLE = {}
+NOT_APPLICABLE = {
+    "C15": "Not claimed. The statement quantifies over generated Cargo workspaces whose differences reach libcnb-cargo only through external "
+           "processes and foreign crates (cargo locate-project / metadata / build, the ignore crate's walk, cross-compile probing); a solver-based "
+           "claim would be about execute()'s glue over a stubbed cargo (output-dir reset, assemble_buildpack_directory, stdout). That harness "
+           "(self-composition of a pre-seeded vs. an empty output directory over the file-system model) fits the engine but was not built in this "
+           "round; the parts shared with other properties are checked there (build order: C13, package.toml normalisation: C14, strict parsing: C08). "
+           "See DESIGN.md §6."}
 ALL = [f"C{i:02d}" for i in range(1, 21)]
 
 
